@@ -111,6 +111,14 @@ pub fn run_c10(out: &mut Out, rng: &mut Rng, tier: Tier) -> String {
     elem_swaps::<Tok>(out, b2, rng, sample);
     elem_swaps::<()>(out, 2, rng, 4);
     elem_swaps::<u32>(out, 2, rng, 4);
+    out.led_mode = true;
+    vec_swaps::<Zd>(out, 2);
+    elem_swaps::<Zd>(out, 2, rng, 4);
+    out.led_mode = false;
+    let z = snapshot();
+    if z.zst_live != 0 || z.zst_overdrops != 0 {
+        out.oracle_fail(&format!("zero-sized elements with drop glue: created - dropped = {} after all matrices were dropped, drops beyond creations = {}", z.zst_live, z.zst_overdrops));
+    }
     huge_zst(out);
     let s = snapshot();
     if s.double_drops > 0 || s.live != 0 {
